@@ -63,7 +63,7 @@ func genWorkload(r *rand.Rand, ntasks int) *workload {
 		nc := 1 + r.IntN(3)
 		for k := 1; k <= nc; k++ {
 			api := []string{"snap", "snap", "json", "yaml"}[r.IntN(4)]
-			kind := []string{"create", "match", "mismatch", "update", "update", "create"}[r.IntN(6)]
+			kind := []string{"create", "match", "mismatch", "mismatch", "update", "update", "create"}[r.IntN(7)]
 			id := vkit.SlotID(t.Test, k)
 			oldIn, oldStored := valFor(api, id+" old")
 			// every variant of a slot's value has the same length: a rewrite then leaves the
@@ -348,7 +348,7 @@ func tokenCase(c *vkit.Ctx, i int) {
 	defer os.RemoveAll(root)
 	snaps.VerifResetProcessState()
 	snaps.VerifSetMode(false, "")
-	snaps.VerifSetNoColor(true)
+	snaps.VerifSetNoColor(r.IntN(2) == 0)
 	h := &recorder{}
 	var outcomes []string
 	var omu sync.Mutex
@@ -495,7 +495,8 @@ func freeMode(c *vkit.Ctx) {
 		root, path, cfg := setupFile(w)
 		snaps.VerifResetProcessState()
 		snaps.VerifSetMode(false, "")
-		snaps.VerifSetNoColor(true)
+		// colours on in half of the runs: failing single-line comparisons then take the inline-highlight path
+		snaps.VerifSetNoColor(i%2 == 0)
 		h := &recorder{}
 		var outcomes []string
 		var omu sync.Mutex
